@@ -45,6 +45,22 @@ CLAIMS = {
          "DESIGN.md §3 C19",
          "Trusted: kernel arithmetic (C01) and sampling primitives; accessor atoms compared by name.",
          "MIR dataflow + polynomial identity of seed indices + iterator-shape matching", True),
+
+ "C11": ("other",
+         "On MIR of every HAL shape function of the reference and AVX crates (operands paired with their *_col argument): overwrite-type operations hand every limb of [0, res.size()) to a kernel on every returning path - decided exactly by evaluating the min/max range bounds over every ordering of the operand sizes (148 functions covered, 18 outside the limb-range idiom listed as undecided); a conditional limb write needs another write for the same limb; every accessor on operand X uses column X_col (371 sites, polynomial identity); no store goes through a pointer derived from a read-only operand; core noise-free operations write every result column. Bytes inside a limb (kernel contracts) are not decided.",
+         "DESIGN.md §3 C11",
+         "Trusted: kernels write the whole limb slice they are given; unknown guards are assumed falsifiable.",
+         "MIR loop/range extraction + exact min/max lattice evaluation of limb coverage + column polynomial identity", True),
+ "C09": ("other",
+         "Only the size rule of C09 (extra result limbs zero, extra operand limbs ignored, exact column) is decided: WR-1/WR-2 restricted to the C09 anchor files and agreement of the small / FFT64-big / NTT120-big implementations on their coverage verdict. Ring arithmetic (index maps mod 2N, group laws, split/merge) is not decided.",
+         "DESIGN.md §3 C02 and C09",
+         "Trusted: per-limb kernels compute the ring map.",
+         "shared limb-coverage / column analysis restricted to the C09 files + sibling verdict comparison", True),
+ "C02": ("other",
+         "Only the shape clause of C02 is decided: result columns of the noise-free GLWE operations are all written (COL-1, over every rank assignment of a grid), the underlying shape functions cover every limb and honour columns (WR-1/WR-2 on the C02 files), and each in-place variant uses the in-place twins of its out-of-place sibling's HAL operations (SIB-1). Phase linearity is arithmetic and not decided.",
+         "DESIGN.md §3 C02 and C09",
+         "Trusted: HAL kernels; asserted rank preconditions.",
+         "shared limb/column coverage analysis + call-set comparison of assign twins", True),
 }
 NOT_BUILT = {}
 
